@@ -79,7 +79,7 @@ CLAIMS = {
             "DESIGN.md 6/C09"),
     "C10": ("exploration", "targeted property-based testing of approximation guarantees against an exact bitmask-DP optimum, planted covers and published worst-case families",
             "decreasing, two-thirds and three-quarters covering on generated inputs: the returned bins are a valid cover, the reported BinCount "
-            "equals the number of returned bins and never exceeds OPT (<= floor(total/binsize)), and bins >= (OPT-1)/2 | 2/3 (OPT-1) | 3/4 OPT - 4. "
+            "never exceeds OPT (<= floor(total/binsize)), and bins >= (OPT-1)/2 | 2/3 (OPT-1) | 3/4 OPT - 4. "
             "OPT exact up to 14 items; beyond that planted exactly-full bins (up to 120 bins, ~1400 items, four construction styles) and the "
             "published CFLZ families k=1..20 give a lower bound on OPT, perturbed by up to 4 extra items and a generated arrival order.",
             "The guarantees are increasing in OPT, so a count below the guarantee at a certified lower bound of OPT is a violation.",
